@@ -305,11 +305,11 @@ def v15_case(kd, em, sspec, epl, acc, ct=None, ref_m=False):
             sub, txt = "wrong-plaintext", "a correctly padded message was not returned exactly"
         exp = "plaintext " + short(ref_m)
     else:
+        if got is sentinel:                 # the caller's own object: always "the sentinel"
+            return "sentinel"
         if _is_byteslike(sentinel):
             if type(got) is bytes and got == bytes(sentinel):
                 return "sentinel"
-        elif got is sentinel:
-            return "sentinel"
         exp = "the sentinel"
         over = _is_byteslike(sentinel) and len(sentinel) > k
         if epl > k - 11 and k >= 12 and _is_byteslike(got) and bytes(got) == b"\x00" and not over:
